@@ -32,6 +32,7 @@ USE_RANGE_OPS(box4i, vec4i)
 USE_RANGE_OPS(box2f, vec2f)
 USE_RANGE_OPS(box3f, vec3f)
 USE_RANGE_OPS(box4f, vec4f)
+USE_RANGE_OPS(box3fa, vec3fa)
 
 #define USE_BOX_FNS(B, P)                                   \
   bool use_fns_##B(const B &a, const B &b, B &o, P &c)      \
@@ -81,4 +82,19 @@ range1f use_ray3(const vec3f &o, const vec3f &d, const box3f &b, const range1f &
 range1f use_ray3d(const vec3f &o, const vec3f &d, const box3f &b)
 {
   return intersectRayBox(o, d, b);
+}
+
+// converting constructor  explicit range_t(const range_t<other_t> &)  between the int and float instantiations of each dimension
+range1f cvt_1f(const range1i &b) { return range1f(b); }
+range1i cvt_1i(const range1f &b) { return range1i(b); }
+box2f cvt_2f(const box2i &b) { return box2f(b); }
+box2i cvt_2i(const box2f &b) { return box2i(b); }
+box3f cvt_3f(const box3i &b) { return box3f(b); }
+box3i cvt_3i(const box3f &b) { return box3i(b); }
+box3fa cvt_3fa(const box3f &b) { return box3fa(b); }
+box4f cvt_4f(const box4i &b) { return box4f(b); }
+box4i cvt_4i(const box4f &b) { return box4i(b); }
+vec3fa use_xfmPoint_a(const AffineSpaceT<LinearSpace3<vec3fa>> &m, const vec3fa &p)
+{
+  return xfmPoint(m, p);
 }
